@@ -296,6 +296,11 @@ def sym_checkpoint(vc):
         havoc_mutable_scalars(it, cp, containers=True, memo_none=True)
         r = it.call(it.lib.getattr_(it, cp, 'handle_flow_checkpoint'), [PyList([s1, s2])])
         check(it, 'swallows-parent-links-returns-itself', isinstance(r, PyList) and len(r.items) == 1 and r.items[0] is cp)
+        # ... and KEEPS them, whatever is on disk at that moment: whether they run is decided when the chain is built (the file may
+        # be deleted between two runs of the same flow object)
+        pc = cp.attrs.get('parent_chain')
+        pci = list(pc) if isinstance(pc, tuple) else getattr(pc, 'items', None)
+        check(it, 'the-links-handed-over-are-kept-whatever-the-file-system-says', pci is not None and len(pci) == 2 and pci[0] is s1 and pci[1] is s2)
         n0 = len(it.path.events)
         chain = it.call(it.lib.getattr_(it, cp, '_preprocess_chain'), [])
         evs = it.path.events[n0:]
